@@ -76,13 +76,34 @@ def third_party_isolation_rules(fb, ctx):
         ctx.fail("ISOLATE", "extract_blocks: one loop over the blocks", "ISOLATE|extract_blocks|loop", f"found {len(loops)} loops reading external_signature", where)
         return
     loop = loops[0]
-    ifs = [n for n in find_all(loop, lambda n: n.get("k") == "if") if (lambda c: c.get("k") == "letexpr" and any((v or "").endswith("::Some") for v in hirq.pat_variants(c["pat"])) and find_all(c["init"], lambda z: z.get("k") == "field" and z.get("name") == "external_signature"))(strip(n["cond"]))]
-    if len(ifs) != 1:
-        ctx.fail("ISOLATE", "extract_blocks: branch on block.external_signature", "ISOLATE|extract_blocks|branch", f"expected one `if let Some(..) = &block.external_signature`, found {len(ifs)}", where)
+    # the branch on "is this block third-party?": `if let Some(..) = &block.external_signature {A} else {B}`, a `match` on it, or
+    # `if block.external_signature.is_none() {B}` / `.is_some() {A} else {B}` - tp_side / fp_side are the code run for a third-party /
+    # first-party block
+    reads_ext = lambda e: bool(find_all(e, lambda z: z.get("k") == "field" and z.get("name") == "external_signature"))
+    cands = []
+    for n in find_all(loop, lambda n: n.get("k") == "if"):
+        c = strip(n["cond"])
+        if c.get("k") == "letexpr" and reads_ext(c["init"]):
+            some = any((v or "").endswith("::Some") for v in hirq.pat_variants(c["pat"]))
+            cands.append((n, n["then"] if some else n.get("else"), n.get("else") if some else n["then"]))
+        else:
+            neg = False
+            while c.get("k") == "unary" and c.get("op") == "Not":
+                neg, c = not neg, strip(c["a"])
+            if c.get("k") == "mcall" and c.get("name") in ("is_some", "is_none") and reads_ext(c["recv"]):
+                is_tp = (c["name"] == "is_some") != neg
+                cands.append((n, n["then"] if is_tp else n.get("else"), n.get("else") if is_tp else n["then"]))
+    for m_ in find_all(loop, lambda z: z.get("k") == "match" and not str(z.get("src", "")).startswith(("TryDesugar", "ForLoopDesugar")) and reads_ext(z.get("scrut"))):
+        some_arms = [a_ for a_ in m_["arms"] if any((v or "").endswith("::Some") for v in hirq.pat_variants(a_["pat"]))]
+        none_arms = [a_ for a_ in m_["arms"] if a_ not in some_arms]
+        if some_arms and none_arms:
+            cands.append((m_, {"k": "block", "stmts": [a_["body"] for a_ in some_arms], "expr": None}, {"k": "block", "stmts": [a_["body"] for a_ in none_arms], "expr": None}))
+    if len(cands) != 1:
+        ctx.fail("ISOLATE", "extract_blocks: branch on block.external_signature", "ISOLATE|extract_blocks|branch", f"expected one test of block.external_signature (if let / match / is_some / is_none) in the loop, found {len(cands)}", where)
         return
-    br = ifs[0]
-    then_m = mcalls(br["then"], MUTATORS)
-    else_m = mcalls(br["else"], MUTATORS) if br.get("else") else []
+    br, tp_side, fp_side = cands[0]
+    then_m = mcalls(tp_side, MUTATORS) if tp_side else []
+    else_m = mcalls(fp_side, MUTATORS) if fp_side else []
     all_m = mcalls(loop, MUTATORS)
     outside = [m for m in all_m if not any(m is x for x in then_m) and not any(m is x for x in else_m)]
     names_else = sorted({(m.get("def") or {}).get("path", "").split("::")[-1] for m in else_m})
